@@ -756,6 +756,10 @@ func TestC20(t *testing.T) {
 		{Pre: []Op20{{Kind: "sub", ID: "a"}, {Kind: "sub", ID: "b", Fail: true}}, Programs: [][]Op20{{{Kind: "pub", ID: "b"}}, {{Kind: "unsub", ID: "a"}}}},
 		{Pre: []Op20{{Kind: "sub", ID: "a"}, {Kind: "sub", ID: "a1"}, {Kind: "sub", ID: "b", Fail: true}, {Kind: "sub", ID: "b"}}, Programs: [][]Op20{{{Kind: "pub", ID: "b"}}, {{Kind: "unsub", ID: "a"}, {Kind: "unsub", ID: "a1"}}}},
 		{Pre: []Op20{{Kind: "sub", ID: "a"}, {Kind: "sub", ID: "b", Fail: true}, {Kind: "sub", ID: "a", Fail: true}}, Programs: [][]Op20{{{Kind: "pub", ID: "b"}}, {{Kind: "pub", ID: "a"}}, {{Kind: "sub", ID: "b"}}}},
+		// one publish fails on two subscribers, and between its two phases somebody else removes one of
+		// them: the earlier one, the later one (the other is still the publish's to remove, once)
+		{Pre: []Op20{{Kind: "sub", ID: "a", Wildcard: true, Fail: true}, {Kind: "sub", ID: "a1", Fail: true}}, Programs: [][]Op20{{{Kind: "pub", ID: "a1"}, {Kind: "pub", ID: "a1"}}, {{Kind: "unsub", ID: "a"}}}},
+		{Pre: []Op20{{Kind: "sub", ID: "a1", Fail: true}, {Kind: "sub", ID: "a", Wildcard: true, Fail: true}, {Kind: "sub", ID: "a1"}}, Programs: [][]Op20{{{Kind: "pub", ID: "a1"}, {Kind: "pub", ID: "a1"}}, {{Kind: "unsub", ID: "a"}}}},
 	}
 	exhaustiveRuns := 0
 	allComplete := true
